@@ -10,6 +10,7 @@ package main
 // receiver>) whose Elem() was Set to the receiver.
 
 import (
+	"fmt"
 	"go/constant"
 	"go/token"
 	"go/types"
@@ -431,4 +432,126 @@ func keyProvenanceSSA(w *World, fn *ssa.Function, v ssa.Value, depth int) bool {
 		}
 	}
 	return false
+}
+
+// c11FieldDerefSSA (C11.R4, field part): the value of a field is followed through a pointer. The
+// function that looks fields up by name is evaluated for three classes of field value: not a
+// pointer, a non-nil pointer, a nil pointer. On the paths consistent with the class (tests of the
+// field value's kind, nil-ness and validity evaluated for the class) that yield a value: a
+// non-pointer field yields its own Interface(), a non-nil pointer field the Interface() of what it
+// points to (Elem or Indirect), a nil pointer field yields nil - and nothing is dereferenced.
+func c11FieldDerefSSA(r *Run, rule string, navID *FuncInfo) {
+	w := r.W
+	w.SSA()
+	fn := w.SSAFunc(navID)
+	if fn == nil {
+		r.Lost(rule, "SSA form of the member lookup")
+		return
+	}
+	paths, ok := walkPathsUnrolled(fn, nil, nil, 50000)
+	if !ok {
+		r.Lost(rule, "paths of the member lookup")
+		return
+	}
+	name := navID.Name()
+	classes := []lenClass{
+		{name: "a field that is not a pointer", kind: kString},
+		{name: "a non-nil pointer field", kind: kPtr, elem: kString},
+		{name: "a nil pointer field", kind: kPtr, elem: kString, isNil: true},
+	}
+	for _, c := range classes {
+		nOK, bad := 0, ""
+		var badAt token.Pos = fn.Pos()
+		for _, p := range paths {
+			var fv *ssa.Call
+			for _, ev := range p.events {
+				if call, ok := ev.(*ssa.Call); ok {
+					if _, _, isF := reflectValueCall(call, "FieldByName"); isF {
+						fv = call
+					}
+				}
+			}
+			if fv == nil || p.end != "return" || len(p.results) != 2 {
+				continue
+			}
+			kindOf := func(v ssa.Value) int { return lenKindOf(p, v, fv, c) }
+			consistent := true
+			for _, d := range p.decisions {
+				cond := d.cond
+				if call, ok := cond.(*ssa.Call); ok {
+					if recv, _, isV := reflectValueCall(call, "IsValid"); isV {
+						if k := kindOf(recv); k >= 0 && (k != kInvalid) != d.truth {
+							consistent = false
+						}
+					}
+					if recv, _, isN := reflectValueCall(call, "IsNil"); isN && p.resolve(recv) == ssa.Value(fv) {
+						if c.kind == kPtr && c.isNil != d.truth {
+							consistent = false
+						}
+					}
+					continue
+				}
+				bo, ok := cond.(*ssa.BinOp)
+				if !ok || (bo.Op != token.EQL && bo.Op != token.NEQ) {
+					continue
+				}
+				a, b := p.resolve(bo.X), p.resolve(bo.Y)
+				if recv, _, isKind := reflectValueCall(a, "Kind"); isKind {
+					if k, isC := constKind(b); isC {
+						if kk := kindOf(recv); kk >= 0 && ((kk == k) == (bo.Op == token.EQL)) != d.truth {
+							consistent = false
+						}
+					}
+				}
+			}
+			if !consistent || !p.knownNil(p.results[1]) {
+				continue
+			}
+			// what is yielded
+			res := p.resolve(p.results[0])
+			var derefs int
+			for _, ev := range p.events {
+				if call, ok := ev.(*ssa.Call); ok {
+					if recv, _, isE := reflectValueCall(call, "Elem"); isE && kindOf(recv) == kPtr {
+						derefs++
+					}
+				}
+			}
+			var src ssa.Value
+			if call, ok := res.(*ssa.Call); ok {
+				if recv, _, isI := reflectValueCall(call, "Interface"); isI {
+					src = recv
+				}
+			}
+			switch {
+			case c.isNil:
+				if !isNilConst(res) {
+					bad, badAt = "a nil pointer field must yield nil (not the pointer, not an error)", p.ret.Pos()
+				} else if derefs > 0 {
+					bad, badAt = "a nil pointer field is dereferenced", p.ret.Pos()
+				} else {
+					nOK++
+				}
+			case src == nil:
+				bad, badAt = "the field's value is not what the lookup yields", p.ret.Pos()
+			case kindOf(src) != kString:
+				if c.kind == kPtr {
+					bad, badAt = "a pointer field yields the pointer itself: the pointer must be followed transparently", p.ret.Pos()
+				} else {
+					bad, badAt = "the value yielded is not the field's value", p.ret.Pos()
+				}
+			default:
+				nOK++
+			}
+		}
+		con := "value of " + c.name
+		switch {
+		case bad != "":
+			r.Bad(rule, name, "pointer-typed field", w.Pos(badAt), "a pointer field must be followed transparently: "+bad+" ("+c.name+")")
+		case nOK == 0:
+			r.Bad(rule, name, "pointer-typed field", w.Pos(fn.Pos()), "no path yields the value of "+c.name)
+		default:
+			r.Ok(rule, name, con, w.Pos(fn.Pos()), fmt.Sprintf("%d path(s): the field's own value, what a pointer points to, nil for a nil pointer", nOK))
+		}
+	}
 }
